@@ -68,3 +68,17 @@ def spec(s, plus_on_ref, ids, excs):
         if i and not (out[i - 1] == "(" or t == ")"): text += " "
         text += t
     return text, maxdepth
+
+
+def spec_obs(s, ids, excs):
+    """The observation format of the model command l.spec (coq/Run/RunLic.v obs_spec): N | S|<band>|<text>, band 0/1/2 = nesting
+    depth <= 100 / 101..200 / > 200.  'LicenseRef-x+' is read as well-formed, as LicSpec.lic_canon does."""
+    r = spec(s, True, ids, excs)
+    if r is None: return "N"
+    return "S|%s|%s" % ("2" if r[1] > 200 else "1" if r[1] > 100 else "0", r[0])
+
+
+def empty_ref_tokens(s):
+    """The tokens of s that are 'LicenseRef-' (any ASCII case) with an EMPTY idstring, optionally followed by one '+'
+    (SPDX Annex D wants idstring = 1*(ALPHA / DIGIT / '-' / '.'))."""
+    return [t for t in tokenize(s) if alower(t[:-1] if t.endswith("+") else t) == "licenseref-"]
